@@ -43,7 +43,7 @@ claim("C01", "DESIGN.md 6 C01",
       "unsignalled); non-selective strategy and race/race_ok/chain/wait_until - every waker ever handed out is the parent waker of that poll and firing it wakes that parent. "
       "C01_join_resolves_under_wake_driven_executor: under an executor that fires every child's most recent waker and then polls, a join of n>=1 Pending*-then-Ready children returns its positional result within (longest script) rounds and never unwinds; C01_join_family_returns_... (join and try_join), C01_merge_next_result_... and C01_zip_next_result_...: the stream form, from every reachable state (next item / row or the end within B rounds). The same for FutureGroup and StreamGroup after any history of inserts, removes and reserves (C01_group_next_result_..., the generic section speaks about occupied slots and the member a slot holds), for the join family from every reachable state, and - under every schedule of polls and wake-ups, since they keep no readiness of their own - for race, race_ok and chain (C01_race_resolves_..., C01_race_ok_resolves_..., C01_chain_next_result_...). "
       "C01_*_trace restate it over the observable trace (bookkeeping recomputed from the events); C01_fire_total_*: every handle ever handed out names an existing slot, so firing it never fails. "
-      "Nests of combinators are covered by universality (an inner combinator is an arbitrary child, a sub-waker an arbitrary parent) and instantiated by the harness in monitor-only suites. For every nest the harness builds (join of joins, a.join(b) of joins, join of races, race of joins, merge / chain / zip of merges, FutureGroup of joins, StreamGroup of merges) the runner composes the extracted model with itself and the leaf-level trace is compared with the crate's. "
+      "Nests of combinators are covered by universality (an inner combinator is an arbitrary child, a sub-waker an arbitrary parent) and instantiated by the harness in monitor-only suites. For every nest the harness builds (join of joins, a.join(b) of joins, join of races, race of joins, merge / chain / zip of merges, FutureGroup of joins, StreamGroup of merges) a Gallina composition of the single-level models (coq/Model/Nest.v nest_run, extracted; a definition without theorems of its own) predicts the leaf-level trace, which is compared with the crate's. "
       "Partial: real thread interleavings are represented by the lock windows of the model (a wake is atomic with respect to a poll's critical sections); the thorough tier exercises that assumption with real threads (mt-harness: 40 000 cases, every Pending child woken from a second OS thread, hang / panic / wrong result reported)." + COMMON)
 claim("C02", "DESIGN.md 6 C02",
       "Ledger theorems over the complete history closed by a drop (any drop point, a panic at any child poll, a poll after completion): every child dropped exactly once, "
@@ -64,7 +64,7 @@ claim("C12", "DESIGN.md 6 C12", "The same theorems for StreamGroup: every item o
 claim("C16", "DESIGN.md 6 C16", "C16_join/merge/zip/group: in the selective strategy the model never polls a child whose last answer was Pending and whose slot has not fired since (ghost flag g_bad16 stays false for all histories); C16_*_trace: the same as a statement about the observable trace alone - the boolean monitor mon16, which recomputes the bookkeeping from the events, accepts every trace of the model (Section GhostTrace: the ghost fields are a function of the trace in every reachable state); checked against the std build." + COMMON)
 claim("C17", "DESIGN.md 6 C17", "C17_merge_window: an input whose script is items only and never runs out has provenance in any n consecutive results, whatever the others do (generic fairness lemma of rotating scans)." + COMMON)
 claim("C19", "DESIGN.md 6 C19", "C19_wait_until_gate (Pw): polls are (deadline,Pending)* (deadline,a0) (inner,_)+; results are exactly the inner's non-Pending answers." + COMMON)
-claim("C20", "DESIGN.md 6 C20", "C20_*: after a Pending return with no insertion since, every awaited child has been polled - selective and non-selective strategies, join/try_join, merge, zip, groups. Second sentence: C20_*_sibling_progress(_trace) - in any reachable state an awaited child that has signalled since its last poll (or was never polled) is polled in the very next poll unless that poll delivers a result first or unwinds, whatever the other children do; race/race_ok poll every unfinished child in every Pending poll (C20_race_polls_all, C20_race_ok_polls_all). Nests of combinators are instantiated by the harness and judged by the monitor alone (no model of a nest)." + COMMON)
+claim("C20", "DESIGN.md 6 C20", "C20_*: after a Pending return with no insertion since, every awaited child has been polled - selective and non-selective strategies, join/try_join, merge, zip, groups. Second sentence: C20_*_sibling_progress(_trace) - in any reachable state an awaited child that has signalled since its last poll (or was never polled) is polled in the very next poll unless that poll delivers a result first or unwinds, whatever the other children do; race/race_ok poll every unfinished child in every Pending poll (C20_race_polls_all, C20_race_ok_polls_all). Nests of combinators are instantiated by the harness and judged by the monitor and, in the conc-nest-sim suites, against the composed nest model (coq/Model/Nest.v, extracted; nothing is proved about nests as such)." + COMMON)
 P["C04"]["text"] += COMMON
 claim("C18", "DESIGN.md 6 C18",
       "Translator route: on every run the field structure of every struct/enum of the crate (259 types, macro-generated tuple variants included) and the auto-trait impls "
